@@ -76,3 +76,20 @@ Theorem C11_fixed_same_schedule :
   s_pc s = SReturned RNil /\ sget s 0 = SLateClosed /\ a_pc s = AReturned RNil.
 Proof. exact fixed_same_schedule. Qed.
 Print Assumptions C11_fixed_same_schedule.
+
+(* Shutdown called BEFORE Serve has stored its listener (there is nothing to close yet): it returns nil at once; when
+   Serve is called afterwards it accepts nobody: it closes its listener and returns nil.
+   (The general theorems above cover this order too: [init] is the state before Serve is called.) *)
+Theorem C11_serve_after_shutdown : forall s s', done s = true -> step true s LServeStart = Some s' ->
+  a_pc s' = AReturned RNil /\ lis_closed s' = true /\ sess s' = sess s.
+Proof.
+  intros s s' Hd H. cbn [step] in H. destruct (a_pc s); try discriminate. rewrite Hd in H. injection H as <-.
+  cbn. auto.
+Qed.
+Print Assumptions C11_serve_after_shutdown.
+
+Example C11_shutdown_before_serve :
+  let s := run true [LShCloseDone; LShCloseListener; LShStartWaiter; LWaitReturn; LWaitSignal; LShSelectDone;
+                     LServeStart; LConnect] init in
+  s_pc s = SReturned RNil /\ a_pc s = AReturned RNil /\ lis_closed s = true /\ sess s = [].
+Proof. vm_compute. repeat split; reflexivity. Qed.
